@@ -302,6 +302,47 @@ def events_of(text, body, consts, resolve):
     return evs
 
 
+def inline_helpers(body, impl_text, depth=0):
+    """A constructor may create its queues through a private associated helper (`Self::helper(..)`)
+    whose body is one expression: the call is replaced by that expression with the arguments
+    substituted textually, so that the skeleton of events is the same as for the inlined code.
+    Anything more complicated is left alone (and shows up as a skeleton mismatch)."""
+    if depth > 2:
+        return body
+    out, pos = [], 0
+    for m in re.finditer(r"\bSelf\s*::\s*(\w+)\s*\(", body):
+        if m.start() < pos:
+            continue
+        fm = re.search(r"\bfn\s+" + m.group(1) + r"\s*(?:<[^>]*>)?\s*\(([^)]*)\)\s*(?:->\s*[^{]*)?\{", impl_text)
+        if not fm or m.group(1) == "new":
+            continue
+        hclose = match_close(impl_text, fm.end() - 1)
+        hbody = impl_text[fm.end():hclose].strip()
+        if ";" in hbody or not re.search(r"\b(VirtQueue|OwningQueue|Dma)\s*::\s*new\s*\(", hbody):
+            continue
+        names = []
+        for prm in split_top(fm.group(1), angles=True):
+            pm = re.match(r"\s*(?:mut\s+)?(\w+)\s*:", prm)
+            if pm:
+                names.append(pm.group(1))
+        close = match_close(body, m.end() - 1)
+        args = split_top(body[m.end():close]) if body[m.end():close].strip() else []
+        if len(args) != len(names):
+            continue
+        expr = hbody
+        for n, a in zip(names, args):
+            a = a.strip()
+            a = re.sub(r"^&\s*(?:mut\s+)?", "", a) if re.fullmatch(r"&\s*(?:mut\s+)?\w+", a) else a
+            rep = a if re.fullmatch(r"[\w:]+", a) else "(" + a + ")"
+            expr = re.sub(r"\b" + re.escape(n) + r"\b", lambda _m, rep=rep: rep, expr)
+        out.append(body[pos:m.start()])
+        out.append(expr)
+        pos = close + 1
+    out.append(body[pos:])
+    res = "".join(out)
+    return inline_helpers(res, impl_text, depth + 1) if res != body else res
+
+
 def extract_driver(repo, short, path, struct, extra):
     raw = open(os.path.join(repo, path)).read()
     s = strip_comments_and_strings(raw)
@@ -361,7 +402,7 @@ def extract_driver(repo, short, path, struct, extra):
             raise ExtractError(f"{path}: cannot parse parameter `{p}`")
         params.append(pm.group(1))
     nclose = match_close(ibody, nm.end() - 1)
-    nbody = ibody[nm.end():nclose]
+    nbody = inline_helpers(ibody[nm.end():nclose], ibody)
     stmts = []
     local_names = list(params)
     cur = {p: i for i, p in enumerate(params)}
